@@ -612,12 +612,27 @@ fn op_by_code_base(code: u64, rng: &mut Rng, z: &Zoned, other: &TimeZone, all: &
             let s = mkspan(u, rng.chance(1, 2)).unwrap();
             (format!("checked_sub({s:?})"), guard(|| z.checked_sub(s)), true, false)
         }
-        3 => ("start_of_day".into(), guard(|| z.start_of_day()), true, false),
+        3 => {
+            set_args(json!({"kind":"sod"}));
+            ("start_of_day".into(), guard(|| z.start_of_day()), true, false)
+        }
         4 => ("end_of_day".into(), guard(|| z.end_of_day()), true, false),
-        5 => ("tomorrow".into(), guard(|| z.tomorrow()), true, false),
-        6 => ("yesterday".into(), guard(|| z.yesterday()), true, false),
-        7 => ("first_of_month".into(), guard(|| z.first_of_month()), true, false),
-        8 => ("last_of_month".into(), guard(|| z.last_of_month()), true, false),
+        5 => {
+            set_args(json!({"kind":"day","n":1}));
+            ("tomorrow".into(), guard(|| z.tomorrow()), true, false)
+        }
+        6 => {
+            set_args(json!({"kind":"day","n":-1}));
+            ("yesterday".into(), guard(|| z.yesterday()), true, false)
+        }
+        7 => {
+            set_args(json!({"kind":"fom"}));
+            ("first_of_month".into(), guard(|| z.first_of_month()), true, false)
+        }
+        8 => {
+            set_args(json!({"kind":"lom"}));
+            ("last_of_month".into(), guard(|| z.last_of_month()), true, false)
+        }
         9 => {
             let ui = (rng.next() % 7) as usize;
             let k = if ui == 6 { 1 } else { *rng.pick(&[1i64, 2, 5, 10, 15, 30]) };
@@ -654,7 +669,10 @@ fn op_by_code_base(code: u64, rng: &mut Rng, z: &Zoned, other: &TimeZone, all: &
                 ("display->parse".into(), guard(|| z.to_string().parse::<Zoned>()), true, false)
             }
         }
-        14 => ("datetime().to_zoned(tz)".into(), guard(|| z.datetime().to_zoned(z.time_zone().clone())), true, false),
+        14 => {
+            set_args(json!({"kind":"rez"}));
+            ("datetime().to_zoned(tz)".into(), guard(|| z.datetime().to_zoned(z.time_zone().clone())), true, false)
+        }
         _ => ("with_time_zone(other)".into(), guard(|| Ok(z.with_time_zone(other.clone()))), false, true),
     }
 }
